@@ -71,6 +71,48 @@ theorem C01_writeCalls (c : Codec) (p : Pkt) :
     · have hne : wireBody c p ≠ [] := fun h => he (List.isEmpty_iff.mpr h)
       simp [hh, he, be32, hne]
 
+theorem pieces_spec (n : Nat) (hn : 0 < n) (f : Nat) (b : Bytes) (hf : b.length ≤ f) :
+    (pieces n f b).flatten = b ∧ ∀ ch ∈ pieces n f b, ch ≠ [] ∧ ch.length ≤ n := by
+  induction f generalizing b with
+  | zero =>
+    have : b = [] := List.eq_nil_of_length_eq_zero (Nat.le_zero.mp hf)
+    subst this; simp [pieces]
+  | succ f ih =>
+    cases b with
+    | nil => simp [pieces]
+    | cons x xs =>
+      have hlen : ((x :: xs).drop n).length ≤ f := by
+        simp only [List.length_drop, List.length_cons] at *; omega
+      obtain ⟨h1, h2⟩ := ih _ hlen
+      refine ⟨?_, ?_⟩
+      · simp only [pieces, List.flatten_cons, h1, List.take_append_drop]
+      · intro ch hch
+        simp only [pieces, List.mem_cons] at hch
+        rcases hch with rfl | h
+        · refine ⟨?_, ?_⟩
+          · cases n with
+            | zero => omega
+            | succ m => simp
+          · simp only [List.length_take]; omega
+        · exact h2 ch h
+
+/-- The rate-limited writer emits the same bytes, in non-empty `Write` calls whose body pieces are at
+most `DefaultChunkSize` long — so `C01_main` applies to it on stream and on message transports alike. -/
+theorem C01_writeCalls_limited (c : Codec) (p : Pkt) :
+    (writeCallsLimited c p).flatten = encode c p ∧ ∀ ch ∈ writeCallsLimited c p, ch ≠ [] := by
+  have hps := pieces_spec constants.DefaultChunkSize (by decide) (wireBody c p).length (wireBody c p) (Nat.le_refl _)
+  unfold writeCallsLimited encode
+  by_cases hh : packet.Type.IsHeartbeat (wireType p)
+  · simp [hh]
+  · simp only [hh, Bool.false_eq_true, if_false, List.flatten_append, List.flatten_cons, List.flatten_nil, hps.1]
+    refine ⟨by simp, ?_⟩
+    intro ch hch
+    simp only [List.mem_append, List.mem_cons, List.not_mem_nil, or_false] at hch
+    rcases hch with (rfl | rfl) | h
+    · simp
+    · simp [be32]
+    · exact (hps.2 ch h).1
+
 /-- **Message transports** (WebSocket: one message per `Write` call, handed to the
 reader message by message): the round trip holds with the writer's own call
 boundaries as the chunking. -/
